@@ -28,8 +28,15 @@ def cases(run: Run):
         total = rng.randint(2, 8)
         # how the run is split into consecutive propagateTo calls
         cuts = sorted(rng.sample(range(1, total), rng.randint(0, min(2, total - 1)))) if total > 1 else []
-        out.append({"dt": dt, "out": outk * dt, "span": span_steps * dt, "steps": total, "cuts": cuts, "ns": rng.randint(1, 2), "nt": rng.randint(1, 3),
-                    "truth_only": rng.random() < 0.25, "start_sec": rng.choice([0, 0, 9, 30]), "seed": rng.randint(1, 10**6)})
+        nt = rng.randint(1, 3)
+        # agents that join or leave through scenario-step events
+        events = []
+        if total >= 3 and rng.random() < 0.6:
+            events.append({"kind": "add", "step": rng.randint(1, total - 1), "tid": 10101})
+        if total >= 3 and nt >= 2 and rng.random() < 0.5:
+            events.append({"kind": "remove", "step": rng.randint(1, total - 1), "tid": 10001 + rng.randrange(nt)})
+        out.append({"dt": dt, "out": outk * dt, "span": span_steps * dt, "steps": total, "cuts": cuts, "ns": rng.randint(1, 2), "nt": nt,
+                    "truth_only": rng.random() < 0.25, "start_sec": rng.choice([0, 0, 9, 30]), "seed": rng.randint(1, 10**6), "events": events})
     # the shape that needs care: run past the configured stop with output_step = 2 dt
     out.append({"dt": 60, "out": 120, "span": 120, "steps": 6, "cuts": [3], "ns": 1, "nt": 2, "truth_only": False, "start_sec": 0, "seed": 7})
     return out
@@ -50,7 +57,21 @@ def build_case(c):
         v = v / np.linalg.norm(v) * np.sqrt(398600.4418 / np.linalg.norm(r))
         targets.append(scen.target_cfg(10001 + k, r, v))
     eng = [scen.engine_cfg(1, targets, sensors)]
-    cfg = scen.scenario_cfg(start, c["dt"], c["span"], eng, out_step=c["out"], truth_only=c["truth_only"], seed=c["seed"])
+    events = []
+    for ev in c.get("events", []):
+        when = scen.iso(start + timedelta(seconds=ev["step"] * c["dt"]))
+        if ev["kind"] == "add":
+            ecef = lla2ecef(np.array([np.radians(3.0), np.radians(-1.0), 900.0]))
+            eci = ecef2eci(ecef, start + timedelta(seconds=90))
+            r = eci[:3]
+            v = np.cross([0, 0, 1.0], r)
+            v = v / np.linalg.norm(v) * np.sqrt(398600.4418 / np.linalg.norm(r))
+            events.append({"scope": "scenario_step", "scope_instance_id": 0, "start_time": when, "end_time": when, "event_type": "target_addition",
+                           "tasking_engine_id": 1, "target_agent": scen.target_cfg(ev["tid"], r, v)})
+        else:
+            events.append({"scope": "scenario_step", "scope_instance_id": 0, "start_time": when, "end_time": when, "event_type": "agent_removal",
+                           "tasking_engine_id": 1, "agent_id": ev["tid"], "agent_type": "target"})
+    cfg = scen.scenario_cfg(start, c["dt"], c["span"], eng, out_step=c["out"], truth_only=c["truth_only"], seed=c["seed"], events=events)
     return scen.build(cfg), start
 
 
@@ -61,6 +82,7 @@ def impl_run(c):
     jd0 = app.clock.julian_date_start
     bounds = [k * c["dt"] for k in c["cuts"]] + [c["steps"] * c["dt"]]
     per_step_rows = []
+    agent_sets = []
     seen_obs = [0]
     # count the transient rows each step produces by wrapping stepForward
     import resonaate.scenario.scenario as scn
@@ -73,6 +95,7 @@ def impl_run(c):
         for eng in self._tasking_engines.values():
             n += len(eng.observations) + len(eng.missed_observations)
         per_step_rows.append(n)
+        agent_sets.append((sorted(list(self.target_agents) + list(self.sensor_agents)), sorted(self.estimate_agents)))
 
     scn.Scenario.stepForward = wrapped
     try:
@@ -85,6 +108,7 @@ def impl_run(c):
     path = app._verif_db_path
     audit = audit_db(path, c, start)
     audit["per_step_rows"] = per_step_rows
+    audit["agent_sets"] = agent_sets
     audit["live"] = live
     audit["live_est"] = live_est
     audit["time"] = float(app.clock.time)
@@ -137,16 +161,16 @@ def audit_db(path, c, start):
     return out
 
 
-def model_line(c, per_step_rows):
+def model_line(c, per_step_rows, agent_sets):
     agents = [10001 + k for k in range(c["nt"])] + [60001 + k for k in range(c["ns"])]
     tracked = [] if c["truth_only"] else [10001 + k for k in range(c["nt"])]
     steps = []
     rid = 1
-    for n in per_step_rows:
-        steps.append(f"{n} " + " ".join(str(rid + i) for i in range(n)))
+    L = lambda xs: f"{len(xs)} " + " ".join(map(str, xs))
+    for n, (ag, tr) in zip(per_step_rows, agent_sets):
+        steps.append(L([rid + i for i in range(n)]) + " " + L(ag) + " " + L(tr))
         rid += n
-    return (f"db.run recordStepped {c['dt']} {c['out']} {c['span']} {len(agents)} " + " ".join(map(str, agents)) + f" {len(tracked)} " + " ".join(map(str, tracked))
-            + f" {len(steps)} " + " ".join(steps))
+    return f"db.run recordStepped {c['dt']} {c['out']} {c['span']} {L(agents)} {L(tracked)} {len(steps)} " + " ".join(steps)
 
 
 def parse_model(mo):
@@ -179,15 +203,36 @@ def oracle(run: Run, c, impl):
         fails.append(("fk:agent", f"rows refer to unknown agents ({desc})"))
     agents = [10001 + k for k in range(c["nt"])] + [60001 + k for k in range(c["ns"])]
     out_epochs = [0] + [k * dt for k in range(1, N + 1) if (k * dt) % out == 0]
-    want_truth = sorted((ag, t) for t in out_epochs for ag in agents)
-    if a["truth_rows"] != want_truth:
-        missing = sorted(set(want_truth) - set(a["truth_rows"]))[:4]
-        extra = sorted(set(a["truth_rows"]) - set(want_truth))[:4]
-        fails.append(("rows:truth", f"truth rows are not one per agent per output epoch: missing {missing}, unexpected {extra} ({desc})"))
+    # membership from the event schedule: an agent is written at every output epoch strictly inside its time in the scenario, never
+    # strictly outside; at the very epoch it joins or leaves either is accepted (the event's own instant)
+    joins = {ev["tid"]: ev["step"] * dt for ev in c.get("events", []) if ev["kind"] == "add"}
+    leaves = {ev["tid"]: ev["step"] * dt for ev in c.get("events", []) if ev["kind"] == "remove"}
+    desc += f", events {c.get('events', [])}"
+
+    def membership(ids):
+        must, may = set(), set()
+        for ag in ids:
+            for t in out_epochs:
+                lo, hi = joins.get(ag, -1), leaves.get(ag, 10**12)
+                if lo < t < hi:
+                    must.add((ag, t))
+                elif t in (lo, hi):
+                    may.add((ag, t))
+        return must, may
+
+    must, may = membership(agents + list(joins))
+    have = a["truth_rows"]
+    if len(set(have)) != len(have) or not (must <= set(have) <= must | may):
+        missing = sorted(must - set(have))[:4]
+        extra = sorted(set(have) - must - may)[:4]
+        dup = sorted({x for x in have if have.count(x) > 1})[:4]
+        fails.append(("rows:truth", f"truth rows are not one per agent per output epoch: missing {missing}, unexpected {extra}, duplicated {dup} ({desc})"))
     if not c["truth_only"]:
-        want_est = sorted((10001 + k, t) for t in out_epochs for k in range(c["nt"]))
-        if a["est_rows"] != want_est:
-            fails.append(("rows:estimate", f"estimate rows are not one per tracked target per output epoch: have {len(a['est_rows'])}, expected {len(want_est)} ({desc})"))
+        must_e, may_e = membership([10001 + k for k in range(c["nt"])] + list(joins))
+        have_e = a["est_rows"]
+        if len(set(have_e)) != len(have_e) or not (must_e <= set(have_e) <= must_e | may_e):
+            fails.append(("rows:estimate", f"estimate rows are not one per tracked target per output epoch: missing {sorted(must_e - set(have_e))[:4]}, "
+                                            f"unexpected {sorted(set(have_e) - must_e - may_e)[:4]} ({desc})"))
     # read back: the last stored truth/estimate of each agent is the state the simulation held at that epoch (when the last step was an output step)
     if a["time"] in out_epochs:
         for ag, (t, st) in a["last_truth"].items():
@@ -209,29 +254,35 @@ def atomicity_probe(run: Run):
     from resonaate.data.epoch import Epoch
     from resonaate.data.resonaate_database import ResonaateDatabase
 
-    d = tempfile.mkdtemp(prefix="verif-c09-")
-    try:
-        db = ResonaateDatabase(db_path=f"sqlite:///{os.path.join(d, 'a.sqlite3')}", logger=logging.getLogger("verif-null"))
-        good = [Epoch(julian_date=2459300.5 + k, timestampISO=f"2021-03-2{k}T00:00:00.000000") for k in range(1, 4)]
-        bad = Epoch(julian_date=2459300.5 + 1, timestampISO="2021-03-29T00:00:00.000000")  # violates the unique julian_date
+    out = []
+    for n_rows, bad_at in ((4, 2), (700, 650), (1500, 1400)):
+        d = tempfile.mkdtemp(prefix="verif-c09-")
         try:
-            db.bulkSave([good[0], good[1], bad, good[2]])
-            raised = False
-        except Exception:  # noqa: BLE001
-            raised = True
-        n = len(db.getData(Query(Epoch)))
-        run.case("atomicity", {"rows": 4, "bad": 2}, True, branch="atomicity")
-        if not raised or n != 0:
-            return [("atomicity", f"a bulk save with a failing row raised={raised} and left {n} of its rows committed")]
-        return []
-    finally:
-        shutil.rmtree(d, ignore_errors=True)
+            db = ResonaateDatabase(db_path=f"sqlite:///{os.path.join(d, 'a.sqlite3')}", logger=logging.getLogger("verif-null"))
+            rows = [Epoch(julian_date=2459300.5 + k, timestampISO=(datetime(2021, 3, 27) + timedelta(days=k)).isoformat(timespec="microseconds")) for k in range(n_rows)]
+            # one row in the middle violates the unique julian_date
+            rows[bad_at] = Epoch(julian_date=2459300.5 + 1, timestampISO="1999-01-01T00:00:00.000000")
+            logging.disable(logging.CRITICAL)  # the expected IntegrityError is logged with its full parameter list
+            try:
+                db.bulkSave(rows)
+                raised = False
+            except Exception:  # noqa: BLE001
+                raised = True
+            finally:
+                logging.disable(logging.NOTSET)
+            n = len(db.getData(Query(Epoch)))
+            run.case("atomicity", {"rows": n_rows, "bad": bad_at}, True, branch=f"atomicity:{n_rows}")
+            if not raised or n != 0:
+                out.append(("atomicity", f"a bulk save of {n_rows} rows whose row {bad_at} fails raised={raised} and left {n} of its rows committed"))
+        finally:
+            shutil.rmtree(d, ignore_errors=True)
+    return out
 
 
 def run_cases(run: Run, cs):
     impls = [guarded(impl_run, c) for c in cs]
     scen.cleanup()
-    lines = [model_line(c, i[1]["per_step_rows"]) if i[0] == "ok" else "skip" for c, i in zip(cs, impls)]
+    lines = [model_line(c, i[1]["per_step_rows"], i[1]["agent_sets"]) if i[0] == "ok" else "skip" for c, i in zip(cs, impls)]
     outs = run.model([l for l in lines if l != "skip"])
     it = iter(outs) if outs is not None else None
     for c, i, l in zip(cs, impls, lines):
